@@ -1010,6 +1010,53 @@ func batchBreaker(t *testing.T, res *h.Result, r *rand.Rand) {
 		if len(res.Samples) < 2 {
 			res.Samples = append(res.Samples, map[string]any{"threshold": th, "cooldown": cool.String(), "steps": log})
 		}
+		// Overlapping callers: B enters Call while A's operation is still running; A's operation
+		// then fails and opens the breaker (as the threshold-th failure, or as a failed probe).
+		// If B's operation is invoked at all, then not after that failure within the cooldown.
+		// (Real time, not a bubble: an implementation that serialises callers with a mutex held
+		// across the operation would freeze a bubble's clock - a mutex wait is not a durable block.)
+		if j%10 < 2 {
+			cool := 40 * time.Millisecond
+			probeCase := j%10 == 1
+			func() {
+				cb := leader.NewCircuitBreaker(th, cool)
+				pre := th - 1
+				if probeCase {
+					pre = th // open it, then wait the cooldown out: A is the half-open probe
+				}
+				for i := 0; i < pre; i++ {
+					cb.Call(func() error { return errTransient })
+				}
+				if probeCase {
+					time.Sleep(cool + time.Millisecond)
+				}
+				start := time.Now()
+				var aEnd, bInv time.Duration = -1, -1
+				done := make(chan struct{}, 2)
+				go func() {
+					cb.Call(func() error {
+						time.Sleep(8 * time.Millisecond)
+						aEnd = time.Since(start)
+						return errTransient
+					})
+					done <- struct{}{}
+				}()
+				go func() {
+					time.Sleep(time.Millisecond)
+					cb.Call(func() error {
+						bInv = time.Since(start)
+						return nil
+					})
+					done <- struct{}{}
+				}()
+				<-done
+				<-done
+				res.Obs["c17.breaker_overlaps"]++
+				if bInv >= 0 && aEnd >= 0 && bInv >= aEnd && bInv-aEnd < cool/2 {
+					addViol(res, "C17", "breaker-open", "breaker-invokes-while-open:overlapping-callers", fmt.Sprintf("threshold=%d cooldown=%v probe=%v: A's operation failed at +%v and opened the breaker; B's operation (B called at +1ms) was invoked at +%v", th, cool, probeCase, aEnd, bInv))
+				}
+			}()
+		}
 	}
 	res.Distinct = len(distinct)
 }
